@@ -137,7 +137,7 @@ PROP = {
                   "configurations, scripts and output shapes; the context code is extracted from the current source and proved to "
                   "obey the model's law on every run; model and an independent monitor are compared with the real Router on all "
                   "two-handler wirings and on random configurations of 1..6 handlers with interleaved streams.",
-    "level_note": "Proved about the model, not about the Go code; the routing theorems are close to the model's definitions, the "
+    "level_note": "handleOne's settlement and Publish calls are derived from the handleMessage model of C02 (Props/C08Router.lean) whose tie to the source is re-proved in this check. Proved about the model, not about the Go code; the routing theorems are close to the model's definitions, the "
                   "weight is on the correspondence (differential harness with pointer-identity recording publishers, 29 structural "
                   "facts, generated context code + 4 tie theorems, -race). The context clause is proved without a guard on the "
                   "incoming context (fix 5846d09); the pre-fix behaviour is kept as an Old witness model.",
